@@ -74,11 +74,24 @@ def opTag : Op → String
 
 def addTag (l : List String) (t : String) : List String := if l.contains t then l else l ++ [t]
 
+/-- per candidate: the first answer at each non-exact grade (for the failure text). -/
+structure Expl where
+  stale : String := ""
+  phantom : String := ""
+  missing : String := ""
+
+def Expl.note (e : Expl) (g : Spec.C14.Grade) (line : String) : Expl :=
+  match g with
+  | .exact => e
+  | .stale => if e.stale = "" then { e with stale := line } else e
+  | .phantom => if e.phantom = "" then { e with phantom := line } else e
+  | .missing => if e.missing = "" then { e with missing := line } else e
+
 structure Acc where
   c : Spec.C14.Cands := {}
+  /-- explanations, parallel to `c.ws` -/
+  ex : List Expl := [{}]
   tags : List String := []
-  firstStale : String := ""
-  firstWrong : String := ""
   nonEmptyAnswers : Nat := 0
   mutations : Nat := 0
 
@@ -91,30 +104,46 @@ def oracle (obs : List (List String × String)) : Verdict :=
     | _, _ => none
   let acc := tr.foldl (fun (a : Acc) (x : List String × Op × Obs) =>
     let (toks, op, o) := x
-    let (c', g) := Spec.C14.stepCheck a.c op o
     let line := "_".intercalate toks ++ ":got=" ++ (renderObs o).replace " " "="
-    let a := { a with c := c', tags := addTag a.tags (opTag op) }
-    let a := if Spec.C14.isQuery op then
-        (match o with
-         | .names (_ :: _) => { a with nonEmptyAnswers := a.nonEmptyAnswers + 1 }
-         | .ids (_ :: _) => { a with nonEmptyAnswers := a.nonEmptyAnswers + 1 }
-         | _ => a)
-      else { a with mutations := a.mutations + 1 }
-    match g with
-    | .exact => a
-    | .stale => { a with tags := addTag a.tags "stale-listing",
-                         firstStale := if a.firstStale = "" then line else a.firstStale }
-    | .wrong => { a with firstWrong := if a.firstWrong = "" then line else a.firstWrong }) ({} : Acc)
+    let c' := Spec.C14.stepCheck a.c op o
+    -- explanations follow the candidates: queries keep them aligned, a crash multiplies them
+    let ex' :=
+      if Spec.C14.isQuery op then
+        (a.c.ws.zip a.ex).map (fun (k, e) => e.note (Spec.C14.grade k.w op o) line)
+      else
+        match op, o with
+        | .crash _ _ _, .ok => (a.c.ws.zip a.ex).flatMap (fun (k, e) => k.during.map (fun _ => e))
+        | _, _ => a.ex
+    let a := { a with c := c', ex := ex', tags := addTag a.tags (opTag op) }
+    if Spec.C14.isQuery op then
+      (match o with
+       | .names (_ :: _) => { a with nonEmptyAnswers := a.nonEmptyAnswers + 1 }
+       | .ids (_ :: _) => { a with nonEmptyAnswers := a.nonEmptyAnswers + 1 }
+       | _ => a)
+    else { a with mutations := a.mutations + 1 }) ({} : Acc)
   let trace := tr.map fun (_, p, o) => (p, o)
+  let g := Spec.C14.gradeOf trace
   let ok := Spec.C14.holdsOn trace
-  let weak := Spec.C14.holdsWeakly trace
-  -- consistency of the explanation with the Spec's verdicts
-  if ok != (acc.firstStale = "" && acc.firstWrong = "") || weak != (acc.firstWrong = "") then
-    Verdict.fail "oracle-inconsistent"
-  else
-    { ok := ok, nontrivial := acc.nonEmptyAnswers > 0 && acc.mutations > 1, tags := acc.tags,
-      reason := if ok then "" else if !weak then "wrong-view:" ++ acc.firstWrong
-                else "stale-tag-listing:" ++ acc.firstStale }
+  -- the explanation of the best candidate
+  let best := (acc.c.ws.zip acc.ex).foldl (fun (b : Option (Spec.C14.Cand × Expl)) ke =>
+    match b with
+    | none => some ke
+    | some (k0, e0) => if ke.1.worst.rank < k0.worst.rank then some ke else some (k0, e0)) none
+  match best with
+  | none => Verdict.fail "oracle-inconsistent"
+  | some (k, e) =>
+    if k.worst != g || acc.c.ws.length != acc.ex.length then Verdict.fail "oracle-inconsistent" else
+    let tags := match g with
+      | .exact => acc.tags
+      | .stale => addTag acc.tags "stale-listing"
+      | .phantom => addTag acc.tags "phantom"
+      | .missing => addTag acc.tags "missing"
+    { ok := ok, nontrivial := acc.nonEmptyAnswers > 0 && acc.mutations > 1, tags := tags,
+      reason := match g with
+        | .exact => ""
+        | .stale => "stale-tag-listing:" ++ e.stale
+        | .phantom => "phantom-in-view:" ++ e.phantom
+        | .missing => "missing-in-view:" ++ e.missing }
 
 def driver : Driver State := { init := {}, step := step, oracle := oracle }
 
